@@ -65,8 +65,9 @@ def make_mesh(d, case):
     jitter = float(d.get('jitter', '0'))
     lengths = [float(x) for x in d.get('len', '1,1,1').split(',')]
     if dim == 3:
+        grade = [float(x) for x in d.get('grade', '1,1,1').split(',')]
         v, t, s = meshgen.box_tets(n[0], n[1], n[2], rng, jitter, lengths, d.get('patches', 'sides'),
-                                   float(d.get('warp', '0')))
+                                   float(d.get('warp', '0')), grade, float(d.get('shear', '0')))
         cells = {'tet': t, 'tri': s}
     else:
         v, t, e = meshgen.square_tris(n[0], n[1], rng, jitter, lengths[:2], d.get('patches', 'sides'))
@@ -292,13 +293,20 @@ def oracle_distance(ops, impl):
 
 def gen_distance(rng, tier, np=None):
     ops = []
-    for _ in range(6 if tier == 'quick' else 24):
+    for _ in range(12 if tier == 'quick' else 40):
         if rng.random() < 0.7:
             n = [rng.randint(1, 4) for _ in range(3)]
             ids = sorted(rng.sample(range(1, 7), rng.randint(1, 3)))
-            ops.append('distance dim=3 n=%d,%d,%d jitter=%.2f mseed=%d len=%s walls=%s%s' %
+            if rng.random() < 0.5:
+                n = [rng.randint(4, 7) for _ in range(3)]
+                extra = ' grade=%.1f,%.1f,%.1f shear=%.2f' % (rng.choice([1, 2, 3]), rng.choice([1, 2.5]),
+                                                              rng.choice([1, 2, 3]), rng.choice([0, 0.5]))
+            else:
+                extra = ''
+            ops.append('distance dim=3 n=%d,%d,%d jitter=%.2f mseed=%d len=%s walls=%s%s%s' %
                        (n[0], n[1], n[2], rng.choice([0, 0.3]), rng.randint(1, 10 ** 6),
-                        rng.choice(['1,1,1', '10,1,0.1', '1,5,1']), ','.join(map(str, ids)), (' np=%d' % np) if np else ''))
+                        rng.choice(['1,1,1', '10,1,0.1', '1,5,1']), ','.join(map(str, ids)), extra,
+                        (' np=%d' % np) if np else ''))
         else:
             n = [rng.randint(2, 6) for _ in range(2)]
             ids = sorted(rng.sample(range(1, 5), rng.randint(1, 2)))
